@@ -1110,6 +1110,19 @@ func vxC14Run(c *vxC14Case, k *vstats.Case) error {
 			k.Class("outcome=connection-lost-this-round")
 			continue
 		}
+		if res.err != "" && !explained && len(w.closeRounds) > 0 && len(ex) == 0 &&
+			(strings.Contains(res.err, "no hosts available") || strings.Contains(res.err, "no connections")) {
+			// a connection was dropped in an earlier round and the pool has no connection (yet, or - the host
+			// having been marked down - any more): the statement went nowhere; this is not the error of a PREPARE
+			earlier := false
+			for r := range w.closeRounds {
+				earlier = earlier || r <= ref.round
+			}
+			if earlier {
+				k.Class("outcome=no-connection-after-an-earlier-drop")
+				continue
+			}
+		}
 		if res.err != "" {
 			if !explained {
 				if vxC14ConnErr(res.err) && len(w.closeRounds) > 0 {
